@@ -5,6 +5,8 @@ import PdModel.Proto
 ```
 docstring run pt=<0|1> td=<n> sys=<f> <decl>* ops <op>*
 docstring signal <errs>                       (epytext.parse tail: which error is raised)
+docstring slug U <u:…>* C <u:…>*              (_slugify: used slugs, then the candidates slugify(text), slugify(text-1), …;
+                                               answer `ok <u:slug>` or `loops` when every given candidate is used)
 
 decl:  obj <id> <parent|-> <inherited csv|-> <module docformat f|-> <docstring u:…|N> <parsed N|plain:u:…|user:k>
        par <f> <obj> ret <plain|user:k> <errs>      parser outcome: returns that, errs appended
@@ -308,6 +310,15 @@ def kv (key : String) (tok : String) : Option String :=
 
 def handle (args : List String) : String :=
   match args with
+  | "slug" :: "U" :: rest =>
+    let us := rest.takeWhile (· != "C")
+    let cs := (rest.dropWhile (· != "C")).drop 1
+    match us.mapM Proto.decodeStr, cs.mapM Proto.decodeStr with
+    | some used, some cands =>
+      (match slugLoop (fun i => cands.getD i []) used cands.length 0 with
+       | some s => "ok " ++ Proto.encodeStr s
+       | none => "loops")
+    | _, _ => "bad-op"
   | ["signal", errs] =>
     match parseErrs errs with
     | some es =>
